@@ -176,6 +176,10 @@ func (s *socket) onOpen() {
 	)
 
 	if i := s.server.Opts().InitialPacket(); i != nil {
+		// encoding consumes the reader: every session needs a copy of its own
+		if b, ok := i.(types.BufferInterface); ok {
+			i = b.Clone()
+		}
 		s.sendPacket(packet.MESSAGE, i, nil, nil)
 	}
 
